@@ -19,6 +19,8 @@ Granularity of actions = the code's atomic sections:
   An item may also be `done` (`SourceComplete`): flush, deactivate the sender, stop the operator when none is left.
 * `cancel sr`    — the context of sender `sr`'s call in flight is cancelled (client gave up): neither the wait on
   `allBarriersReceived` nor the hand-over to the consumer looks at the context, so nothing changes.
+* `armDbFail`    — environment: the next `db.Checkpoint` fails (storage unavailable): like a failed ack, but no
+  DKV checkpoint exists and the job is not called.
 * `armFail`      — environment: the next `OperatorCheckpointComplete` call fails (job unreachable).
 * `redeploy`     — `HandleDeploy` on the running operator (fresh storage, no checkpoints to restore): the
   half-aligned checkpoint of the previous deployment is abandoned, its parked senders are turned away with an
@@ -109,8 +111,10 @@ structure St where
   timers : Timers
   wms : Nat → Nat
   watermark : Nat
-  /-- environment: the next ack to the job fails -/
+  /-- environment: the completion of the next checkpoint fails (the ack to the job, or already `db.Checkpoint`) -/
   ackFails : Bool
+  /-- …and it is `db.Checkpoint` that fails: no DKV checkpoint is written, the job is not called -/
+  dbFails : Bool := false
   /-- `o.sourceRunners.active` -/
   active : List Nat
   stopped : Bool
@@ -184,8 +188,9 @@ def barrier (s : St) (sr id : Nat) : St × List Obs :=
       let r := flush s
       if s.ackFails then
         -- the DKV checkpoint exists but the job never hears of it; the completed record stays in place
-        ({ r.1 with ckpt := some (c.1, []), slots := release r.1.slots, ackFails := false },
-         [.reg sr id] ++ r.2 ++ [.snap c.1 r.1.kv r.1.timers, .ackfail c.1, .released (parkedList s)])
+        ({ r.1 with ckpt := some (c.1, []), slots := release r.1.slots, ackFails := false, dbFails := false },
+         [.reg sr id] ++ r.2 ++ (if s.dbFails then [] else [.snap c.1 r.1.kv r.1.timers]) ++
+           [.ackfail c.1, .released (parkedList s)])
       else
         ({ r.1 with ckpt := none, slots := release r.1.slots },
          [.reg sr id] ++ r.2 ++ [.snap c.1 r.1.kv r.1.timers, .ack c.1, .released (parkedList s)])
@@ -217,6 +222,7 @@ inductive Act where
   | tick
   | stale
   | armFail
+  | armDbFail
   | cancel (sr : Nat)
   | redeploy
 deriving Repr
@@ -238,6 +244,12 @@ def redeploy (s : St) : St × List Obs :=
             kv := emptyKV, timers := [], wms := fun _ => 0, watermark := 0, active := List.range s.k },
    [.redeployed (parkedList s)])
 
+/-- what the property asks of a redeploy (spec, not the code: open finding D45): nothing of the previous deployment
+reaches the new one — the event batcher is emptied and every call in flight is turned away, not only the parked ones -/
+def redeploySpec (s : St) : St × List Obs :=
+  ({ (redeploy s).1 with slots := fun _ => none, pending := [] },
+   [.redeployed ((List.range s.k).filter fun i => (s.slots i).isSome)])
+
 def stepLive (s : St) : Act → St × List Obs
   | .align sr it =>
     if sr < s.k then
@@ -258,6 +270,7 @@ def stepLive (s : St) : Act → St × List Obs
   | .tick => timeout s s.lastSet
   | .stale => timeout s s.prevSet
   | .armFail => ({ s with ackFails := true }, [])
+  | .armDbFail => ({ s with ackFails := true, dbFails := true }, [])
   | .cancel _ => (s, [])
   | .redeploy => redeploy s
 
@@ -279,12 +292,16 @@ flushes the batch and captures the DKV checkpoint. `hold sr` stops the consumer 
 block on the unbuffered `o.events` channel, because its single consumer is busy (`go x` while held = "queued",
 nothing else happens); every other entry point needs `o.mu` or the consumer and blocks outright (refused).
 `resume` lets the consumer finish the barrier handler (flush, capture, ack, reset) and then serve the queue.
-The harness queues at most one sender, and only with a keyed event or watermark, per hold. -/
+The harness queues at most one sender, and only with a keyed event or watermark, per hold, and starts at most one
+new call per hold (which must block on the read lock until the handler returns). -/
 
 structure HSt where
   s : St
   held : Option Nat := none
   queue : List Nat := []
+  /-- a new `HandleEvent` call started while the consumer is held: it blocks on `o.mu.RLock` (the barrier handler
+  holds the write lock) before any alignment decision -/
+  blocked : List (Nat × Item) := []
 
 inductive HAct where
   | base (a : Act)
@@ -315,6 +332,10 @@ def hstep (h : HSt) : HAct → HSt × List Obs
       match a with
       | .go x =>
         if h.queue.isEmpty && x != sr0 && queueable h.s x then ({ h with queue := [x] }, []) else (h, [])
+      | .align sr it =>
+        -- the call waits for the read lock; its alignment is decided only after the handler returned
+        if h.blocked.isEmpty && decide (sr < h.s.k) && (h.s.slots sr).isNone then ({ h with blocked := [(sr, it)] }, [])
+        else (h, [])
       | _ => (h, [])          -- blocks on `o.mu` / the busy consumer: refused by the harness
   | .hold sr =>
     match h.held with
@@ -326,8 +347,8 @@ def hstep (h : HSt) : HAct → HSt × List Obs
     match h.held with
     | none => (h, [])
     | some sr0 =>
-      let r := runFrom h.s [] (.go sr0 :: h.queue.map .go)
-      ({ s := r.1, held := none, queue := [] }, r.2)
+      let r := runFrom h.s [] (.go sr0 :: h.queue.map .go ++ h.blocked.map fun x => .align x.1 x.2)
+      ({ s := r.1, held := none, queue := [], blocked := [] }, r.2)
 
 def hrunFrom (h : HSt) (acc : List Obs) : List HAct → HSt × List Obs
   | [] => (h, acc)
